@@ -21,6 +21,7 @@ import (
 	"os"
 	"sort"
 	"sync"
+	"sync/atomic"
 	"time"
 
 	"verifharness/core"
@@ -28,7 +29,7 @@ import (
 
 const (
 	returnBound = 2 * time.Second // generous bound on "promptly"
-	watchdog    = 4 * time.Second
+	watchdog    = 3 * time.Second
 )
 
 type mode struct {
@@ -374,19 +375,34 @@ func gen(c *core.Ctx) error {
 	outs := make([]outT, len(jobs))
 	sem := make(chan struct{}, 12)
 	var wg sync.WaitGroup
+	var hangs int32
+	skipped := make([]bool, len(jobs))
 	for i := range jobs {
+		if atomic.LoadInt32(&hangs) >= 8 {
+			// the property is already refuted several times over; every further
+			// hanging case would cost a watchdog period
+			skipped[i] = true
+			continue
+		}
 		wg.Add(1)
 		sem <- struct{}{}
 		go func(i int) {
 			defer wg.Done()
 			defer func() { <-sem }()
 			o, err := runOne(jobs[i].sh, jobs[i].m)
+			if err == nil && !o.Returned {
+				atomic.AddInt32(&hangs, 1)
+			}
 			outs[i] = outT{o, err}
 		}(i)
 	}
 	wg.Wait()
 	var worst int64
 	for i, j := range jobs {
+		if skipped[i] {
+			c.Count("skipped-after-8-hangs")
+			continue
+		}
 		if outs[i].err != nil {
 			return outs[i].err
 		}
